@@ -818,6 +818,16 @@ let run_case (fn : string) : unit =
            (match decrypt open_new open_old key c with
             | Some m -> pr "ok"; pr_bytes m
             | None -> pr "err")
+       | "dkey" ->
+           (* master context | base64(context++master) salt argon-output, all computed by the harness
+              from the SPECIFIED inputs; a primitive asked about anything else answers [] *)
+           let master = rd_bytes () in let context = rd_bytes () in
+           let e64 = rd_bytes () in let salt = rd_bytes () in let key = rd_bytes () in
+           let combined = context @ master in
+           let b64 x = if x = combined then e64 else [] in
+           let salt_of x = if x = combined then salt else [] in
+           let argon pw sl = if pw = e64 && sl = salt then key else [] in
+           pr "ok"; pr_bytes (derive_key b64 salt_of argon master context)
        | s -> failwith ("bad_crypto_op_" ^ s))
   | "lww" ->
       (* payload is an opaque integer id for the kv layer *)
